@@ -28,7 +28,7 @@ def run(tier, seed):
     chk.leg("trace validation (Layer A judge)", events=n,
             what="bytes of derived pk (from generated and from round-tripped sk) equal the generated pk's; verdicts of generated / round-tripped / derived pk agree on valid, bit-flipped, wrong-mode and wrong-message signatures")
     common.nohooks_leg(chk, "honest", nseeds=2, nmsgs=2)
-    common.mc_leg(chk, "MC_API", tier=tier)
+    common.mc_leg(chk, "MC_API")
     chk.cov["exhaustive"] = False
     return chk.finish()
 
